@@ -359,6 +359,82 @@ func execConv(op string, a []string) string {
 			}
 		}
 		return "ok"
+	case "conv.recipients":
+		// conv.recipients <n>: the recipient bookkeeping — nil, a recipient already placed elsewhere, itself, a third layer
+		// are refused with an error (never a panic); what was added is what the accessors report and what goes on the wire
+		n, _ := strconv.Atoi(a[0])
+		mk := func(i int) *cose.Recipient {
+			return &cose.Recipient{Protected: cose.Headers{}, Unprotected: cose.Headers{iana.HeaderParameterAlg: iana.AlgorithmDirect, iana.HeaderParameterKid: []byte{byte(i)}}, Ciphertext: []byte{}}
+		}
+		mm := &cose.MacMessage[[]byte]{Payload: []byte("p")}
+		em := &cose.EncryptMessage[[]byte]{Payload: []byte("p")}
+		if mm.AddRecipient(nil) == nil || em.AddRecipient(nil) == nil || mk(0).AddRecipient(nil) == nil {
+			return "nil recipient accepted"
+		}
+		var outer []*cose.Recipient
+		for i := 0; i < n; i++ {
+			r := mk(i)
+			if i%2 == 1 { // a second layer under every other recipient
+				inner := mk(100 + i)
+				if r.AddRecipient(r) == nil {
+					return "a recipient was added to itself"
+				}
+				if err := r.AddRecipient(inner); err != nil {
+					return "second layer refused"
+				}
+				if inner.AddRecipient(mk(200)) == nil || mk(201).AddRecipient(r) == nil {
+					return "third layer accepted (the library's decoder reads two)"
+				}
+				if len(r.Recipients()) != 1 || r.Recipients()[0] != inner {
+					return "Recipient.Recipients() wrong"
+				}
+			}
+			if err := mm.AddRecipient(r); err != nil {
+				return "recipient refused"
+			}
+			if em.AddRecipient(r) == nil {
+				return "a recipient placed in one message was accepted by another"
+			}
+			outer = append(outer, r)
+		}
+		if len(mm.Recipients()) != n {
+			return "MacMessage.Recipients() wrong length"
+		}
+		for i, r := range outer {
+			if mm.Recipients()[i] != r {
+				return "MacMessage.Recipients() wrong order"
+			}
+			b, err := r.MarshalCBOR()
+			if err != nil || string(r.Bytesify()) != string(b) {
+				return "Recipient.Bytesify differs from MarshalCBOR"
+			}
+			var back cose.Recipient
+			if err := back.UnmarshalCBOR(b); err != nil || len(back.Recipients()) != len(r.Recipients()) {
+				return "recipient does not survive CBOR"
+			}
+		}
+		k, _ := hmac.GenerateKey(iana.AlgorithmHMAC_256_64)
+		mc, _ := k.MACer()
+		data, err := mm.ComputeAndEncode(mc, nil)
+		if n == 0 {
+			if err == nil {
+				return "COSE_Mac without recipients was produced"
+			}
+			return "ok"
+		}
+		if err != nil {
+			return "ComputeAndEncode failed"
+		}
+		got, err := cose.VerifyMacMessage[[]byte](mc, data, nil)
+		if err != nil || len(got.Recipients()) != n {
+			return "COSE_Mac with recipients does not come back"
+		}
+		for i, r := range got.Recipients() {
+			if len(r.Recipients()) != len(outer[i].Recipients()) {
+				return "nested recipients lost"
+			}
+		}
+		return "ok"
 	case "conv.keyset":
 		// conv.keyset <n> <kidStyle> <opsStyle>: a key set of n signing keys with distinct kids (the last one without kid):
 		// look-ups by kid return exactly the first entry whose kid is byte-equal or nothing, Signers / Verifiers keep order and
@@ -487,7 +563,9 @@ func execConv(op string, a []string) string {
 func genConvOps(r *mrand.Rand, n int) []string {
 	var out []string
 	for i := 0; i < n; i++ {
-		switch r.Intn(5) {
+		switch r.Intn(6) {
+		case 5:
+			out = append(out, fmt.Sprintf("conv.recipients %d", r.Intn(5)))
 		case 0:
 			out = append(out, "conv.ed25519 "+hx(randBytes(r, 32)))
 		case 1:
